@@ -1701,6 +1701,10 @@ func runCompress(cfg *Config) *Result {
 			czWriterProbe(res, cfg.Seed)
 			return res
 		}
+		if strings.HasPrefix(rp.Case, "fileoff ") {
+			czFileOffsetProbe(res, cfg.Seed)
+			return res
+		}
 		c, err := czParseCase(rp.Case)
 		if err != nil {
 			res.SetupError = "replay case: " + err.Error()
@@ -1728,6 +1732,7 @@ func runCompress(cfg *Config) *Result {
 	time.Sleep(300 * time.Millisecond) // let both streams be opened (the gzip path is chosen at open time)
 	verdicts := czRunAll(e, cases)
 	czWriterProbe(res, cfg.Seed)
+	czFileOffsetProbe(res, cfg.Seed)
 	slow.collect(res)
 	for i, c := range cases {
 		if verdicts[i] == nil {
